@@ -441,6 +441,12 @@ func (sf *file) ReadAt(p []byte, offset int64) (int, error) {
 			upperDiscard = positive(chunkOffset + chunkSize - (offset + int64(len(p))))
 			expectedSize = chunkSize - upperDiscard - lowerDiscard
 		)
+		if chunkOffset > offset+int64(nr) || expectedSize <= 0 || expectedSize > int64(len(p)-nr) {
+			// The chunk table comes from the TOC, which may be unverified or broken: a
+			// chunk that doesn't cover the requested offset (a hole between chunks) makes
+			// the slicing below go out of range.
+			return 0, fmt.Errorf("invalid chunk [%d, %d) found for offset %d", chunkOffset, chunkOffset+chunkSize, offset+int64(nr))
+		}
 
 		// Check if the content exists in the cache
 		if r, err := sf.gr.cache.Get(id); err == nil {
